@@ -38,6 +38,17 @@ class Unit(object):
         self.trusted = list(trusted)
         self.canaries = list(canaries)     # [(name, mutator(module_tree), [clause ids expected to fail])]
         self.bounded = bounded
+        # the properties a unit serves = the declared ones plus every property named in a clause tag of its text
+        try:
+            import inspect
+            import re
+            src = inspect.getsource(run)
+            for m in re.finditer(r"'((?:C\d\d\+)*C\d\d):", src):
+                for t in m.group(1).split('+'):
+                    if t not in self.props:
+                        self.props.append(t)
+        except Exception:
+            pass
         UNITS[name] = self
 
 
